@@ -82,7 +82,7 @@ class StubValidatorClass:
         return Inst()
 
 
-def run_scenario(prog, schema_state, instances, output="plain", explicit=False, base_uri=None, stdin_state=None, repeat_first=False):
+def run_scenario(prog, schema_state, instances, output="plain", explicit=False, base_uri=None, stdin_state=None, repeat_first=False, names=None, decoys=None):
     """-> dict(exit, opened, log, out, err)"""
     ev = Ev(prog, fuel=120000, real_errors=True)
     Obj.ev = ev
@@ -92,8 +92,9 @@ def run_scenario(prog, schema_state, instances, output="plain", explicit=False, 
     chosen, given = StubValidatorClass("Chosen", ev, log, SE, VE), StubValidatorClass("Given", ev, log, SE, VE)
     spec = {"schema.json": schema_state}
     paths = []
+    spec.update(decoys or {})
     for i, st in enumerate(instances or []):
-        p = "i%d.json" % i
+        p = names[i] if names else "i%d.json" % i
         spec[p] = st
         paths.append(p)
     if repeat_first and paths:
@@ -165,12 +166,18 @@ def cli_eval(prog):
         for output in ("plain", "pretty"):
             scenarios.append((good, [{"errors": 1}, {"errors": 0}, "REPEAT"], output, False, None, None))
             scenarios.append((good, [MISSING, "REPEAT"], output, False, None, None))
+        # paths are used as written: a file system in which the *normalised* spelling of each odd path is another file (or none)
+        ODD = ("sub/../i0.json", "./i1.json", "dir//i2.json", "@i3.json", " i4.json", "i5.JSON", "~/i6.json", "a/./b/../i7.json")
+        decoy_ok = {p: {"errors": 0} for p in ("i0.json", "i1.json", "dir/i2.json", "i3.json", "i4.json", "i5.json", "i6.json", "a/i7.json")}
+        scenarios.append((good, [MISSING, {"errors": 1}, {"errors": 2}, {"errors": 0}, MISSING, NOTJSON, {"errors": 0}, {"errors": 1}], "plain", False, None, None, ODD, decoy_ok))
+        scenarios.append((good, [{"errors": 0}] * 8, "pretty", False, None, None, ODD, {p: {"errors": 3} for p in decoy_ok}))
         n_run = 0
-        for (sst, insts, output, explicit, base, sin) in scenarios:
+        for sc in scenarios:
+            (sst, insts, output, explicit, base, sin), names, decoys = sc[:6], (sc[6] if len(sc) > 6 else None), (sc[7] if len(sc) > 7 else None)
             rep = bool(insts) and insts[-1] == "REPEAT"
             if rep:
                 insts = insts[:-1]
-            res = run_scenario(prog, sst, insts, output, explicit, base, sin, repeat_first=rep)
+            res = run_scenario(prog, sst, insts, output, explicit, base, sin, repeat_first=rep, names=names, decoys=decoys)
             if rep:
                 insts = insts + [insts[0]]
             n_run += 1
